@@ -6,18 +6,17 @@ open CC
 
 theorem new_ok (cap : Nat) (m : Mem) (r : Rbuf) (m' : Mem) (hc : 0 < cap)
     (h : Rbuf.new cap m = (.ok, some r, m')) : r.Inv ∧ r.abs = [] ∧ m'.live = m.live + 2 := by
-  unfold Rbuf.new at h
-  dsimp only at h
-  split at h
-  · simp at h
-  · split at h
-    · simp at h
-    · simp only [Prod.mk.injEq, Option.some.injEq, true_and] at h
-      obtain ⟨h1, h2⟩ := h
-      subst h1 h2
-      rename_i h1 h2
-      have e1 := Mem.alloc_fst_true m (by simpa using h1)
-      have e2 := Mem.alloc_fst_true m.alloc.2 (by simpa using h2)
+  unfold Rbuf.new Rbuf.newT at h
+  simp only [Mem.allocT_conf, Mem.freeT_conf] at h
+  cases h1 : m.alloc.1
+  · simp [h1] at h
+  · cases h2 : m.alloc.2.alloc.1
+    · simp [h1, h2] at h
+    · simp only [h1, h2, Bool.not_true, Bool.false_eq_true, if_false, Prod.mk.injEq, Option.some.injEq, true_and] at h
+      obtain ⟨hr, hm⟩ := h
+      subst hr hm
+      have e1 := Mem.alloc_fst_true m h1
+      have e2 := Mem.alloc_fst_true m.alloc.2 h2
       refine ⟨⟨hc, by simp, by simp, hc, by simp⟩, by simp [abs], by omega⟩
 
 theorem enqueue_inv (r : Rbuf) (x : Nat) (m : Mem) (h : r.Inv) : (r.enqueue x m).1.Inv := by
